@@ -16,6 +16,8 @@ silent beyond the client's timeout.  `P : Frame → Resp` is the reply parser (`
   input (any bytes, any events, any parser): whatever is yielded passed the context/service assertion
   against the request it is yielded for, the `n`-th record is for the `n`-th request, and fewer records
   than requests come only together with an error.
+* `cut_yields_zip`, `lost_reply_detected`: for any well-formed frames (lost, duplicated, overtaken replies):
+  pairing stops with `mismatch` at the first reply that is not the next request's.
 * `cut_yields_prefix`, `no_success_on_partial`, `exchange_cut`: for a peer that answers in order: the
   records are exactly the replies of the frames lying wholly inside the first `k` bytes, each paired
   with its own request; a frame that was not completely received yields nothing; unless that covers all
@@ -96,6 +98,42 @@ theorem cut_yields_prefix (P : Frame → Resp) (depth index : Nat) (issued : Lis
       else .error (cutErr closed (leftover k fs)) := by
   rw [pipeline_eq]; exact synchronous_cut P closed issued fs k st hst hs hm
 
+/-- **Cut yields the checked zip** — the same without assuming that the replies answer the requests (frames
+lost, duplicated, overtaken, from another exchange): the records are the pairs of `zipSpec` over the replies of
+the wholly received frames — pairing stops with `mismatch` at the first reply that does not carry the next
+request's context and service. -/
+theorem cut_yields_zip (P : Frame → Resp) (depth index : Nat) (issued : List Iss) (fs : List Frame)
+    (k : Nat) (closed : Bool) (st : CSt)
+    (hst : flat st = flat (cutState fs k closed)) (hs : Served P fs) :
+    (pipeline P depth index issued st).1 =
+      (zipSpec issued ((fs.take (whole k fs)).flatMap (colsOf P)) (cutEnd closed (leftover k fs))).1 ∧
+    (pipeline P depth index issued st).2.1 =
+      endOfH (zipSpec issued ((fs.take (whole k fs)).flatMap (colsOf P)) (cutEnd closed (leftover k fs))).2 := by
+  rw [pipeline_eq]; exact synchronous_cut_zip P closed issued fs k st hst hs
+
+/-- **A reply lost entirely is detected, not mispaired**: the frames delivered (all of them, then silence or
+EOF) answer the first requests `is₁` one by one, but the reply to the next request `i` is missing, so that
+the next reply `c` (if any) belongs to a later request: the records are exactly those of `is₁`, and the stream
+ends with `mismatch` — or, when nothing follows, with `incomplete`. -/
+theorem lost_reply_detected (P : Frame → Resp) (depth index : Nat) (is₁ : List Iss) (i : Iss) (is₂ : List Iss)
+    (fs : List Frame) (cs₁ cs₂ : List Col) (closed : Bool) (st : CSt)
+    (hst : flat st = flat (cutState fs (stream fs).length closed)) (hs : Served P fs)
+    (hcols : fs.flatMap (colsOf P) = cs₁ ++ cs₂)
+    (h₁ : AllMatch is₁ cs₁) (hl : is₁.length = cs₁.length)
+    (hnext : ∀ c, cs₂.head? = some c → ¬ Matches i c) :
+    (pipeline P depth index (is₁ ++ i :: is₂) st).1 = (is₁.zip cs₁).map mkRes ∧
+    (pipeline P depth index (is₁ ++ i :: is₂) st).2.1 =
+      .error (if cs₂.isEmpty then .incomplete else .mismatch) := by
+  obtain ⟨h1, h2⟩ := cut_yields_zip P depth index (is₁ ++ i :: is₂) fs (stream fs).length closed st hst hs
+  rw [whole_total fs _ (Nat.le_refl _), leftover_total fs _ (Nat.le_refl _), List.take_length, hcols] at h1 h2
+  cases cs₂ with
+  | nil =>
+    rw [List.append_nil, zipSpec_short is₁ cs₁ i is₂ _ h₁ hl] at h1 h2
+    exact ⟨h1, by rw [h2]; simp [cutEnd, endOfH]⟩
+  | cons c cs =>
+    rw [zipSpec_first_mismatch is₁ cs₁ i c is₂ cs _ h₁ hl (hnext c rfl)] at h1 h2
+    exact ⟨h1, by rw [h2]; simp [endOfH]⟩
+
 /-- **No success on a partial reply**: the number of records is the number of replies in wholly received
 frames (capped by the number of requests): the frame the cut falls into, and everything behind it,
 yields nothing. -/
@@ -151,6 +189,29 @@ theorem exchange_cut_segmented (P : Frame → Resp) (depth : Nat) (issued : List
   apply exchange_congr
   · simp [joinData, hj, termEv]; cases closed <;> simp [joinData]
   · simp [afterData, ha, termEv]; cases closed <;> simp [afterData]
+
+/-- the general form, for any well-formed frames: what the check evaluates on every exchange whose frames
+parse (mutated streams included) -/
+theorem exchange_zip_segmented (P : Frame → Resp) (depth : Nat) (issued : List Iss) (reg : Frame)
+    (fs : List Frame) (k : Nat) (closed : Bool) (evs : List Ev)
+    (hj : joinData evs = (stream (reg :: fs)).take k) (ha : afterData evs = [termEv closed])
+    (hr : IsRegister reg) (hs : Served P fs) :
+    exchange P depth issued evs = exchangeZipSpec P issued reg fs k closed := by
+  have hx : exchange P depth issued evs =
+      exchange P depth issued [.data ((stream (reg :: fs)).take k), termEv closed] := by
+    apply exchange_congr
+    · simp [joinData, hj, termEv]; cases closed <;> simp [joinData]
+    · simp [afterData, ha, termEv]; cases closed <;> simp [afterData]
+  rw [hx]
+  unfold exchange exchangeZipSpec
+  rw [connect_cut reg fs k closed hr]
+  by_cases hk : (encodeFrame reg).length ≤ k
+  · simp only [hk, if_true]
+    obtain ⟨h1, h2⟩ := cut_yields_zip P depth 0 issued fs (k - (encodeFrame reg).length) closed
+      (cutState fs (k - (encodeFrame reg).length) closed) rfl hs
+    unfold cutState at h1 h2
+    rw [h1, h2]
+  · simp only [hk, if_false]
 
 /-! ### the proxy's gateway -/
 
@@ -323,6 +384,28 @@ example : (exchange parseFrame 2 threeIssued
      .data (((stream (regFrame :: threeReplies)).take 88).drop 30), .eof]).toOption =
     (exchange parseFrame 2 threeIssued [.data ((stream (regFrame :: threeReplies)).take 88), .eof]).toOption := by
   decide +kernel
+
+/-- the hypotheses of `exchange_cut_segmented` / `cut_yields_prefix` on the two-block delivery above -/
+example : joinData [.data ((stream (regFrame :: threeReplies)).take 30),
+      .data (((stream (regFrame :: threeReplies)).take 88).drop 30), .eof] =
+      (stream (regFrame :: threeReplies)).take 88 ∧
+    afterData [.data ((stream (regFrame :: threeReplies)).take 30),
+      .data (((stream (regFrame :: threeReplies)).take 88).drop 30), Ev.eof] = [termEv true] := by decide +kernel
+
+example : flat { buf := (stream threeReplies).take 20, evs := [.data (((stream threeReplies).take 60).drop 20), .eof],
+                 pend := [] } = flat (cutState threeReplies 60 true) := by decide +kernel
+
+/-- the hypotheses of `lost_reply_detected`: the reply to the second request is lost -/
+example : Served parseFrame [readReply 0x30 100, readReply 0x32 102] ∧
+    AllMatch [threeIssued[0]] ((colsOf parseFrame (readReply 0x30 100))) ∧
+    (∀ c, (colsOf parseFrame (readReply 0x32 102)).head? = some c → ¬ Matches threeIssued[1] c) := by
+  decide +kernel
+
+example : (exchange parseFrame 2 threeIssued
+    [.data (stream [regFrame, readReply 0x30 100, readReply 0x32 102]), .quiet]).toOption =
+    some (Prod.mk [{ iss := { idx := 0, ctx := [0x30], svc := 0x4c }, ctx := [0x30],
+                     rpy := { svc := 0xcc, status := 0, raw := [0xcc, 0, 0, 0, 0xc4, 0, 100, 0, 0, 0] } }]
+            (.error .mismatch)) := by decide +kernel
 
 /-- replies in the wrong order (a dropped or overtaken frame) are detected, not mispaired -/
 example : (exchange parseFrame 2 threeIssued
